@@ -79,6 +79,28 @@ def exact_ancilla(inp):
         err = max(np.abs(np.array(a) - b).max() for a, b in zip(dyn.states, ref))
         if err > 1e-10 or len(dyn.states) != n + 1:
             bad.append({'case': label, 'max_error': float(err)})
+    # the same environment stored in a transformed basis: every combination of in/out transforms
+    rng2 = np.random.default_rng(9)
+    from oqupy.process_tensor import SimpleProcessTensor
+    for use_in, use_out in ((True, True), (True, False), (False, True)):
+        A = rng2.normal(size=(4, 4)) + 1j * rng2.normal(size=(4, 4))     # in-transform  (acts as sum_j t[..j..] Tin[i,j])
+        B = rng2.normal(size=(4, 4)) + 1j * rng2.normal(size=(4, 4))     # out-transform (acts as sum_p t[..p] Tout[p,o])
+        Ainv, Binv = np.linalg.inv(A), np.linalg.inv(B)
+        q = SimpleProcessTensor(2, dt=dt, transform_in=A if use_in else None, transform_out=B if use_out else None)
+        for k in range(n):
+            t = np.array(pt.get_mpo_tensor(k))
+            if use_in:
+                t = np.einsum('abip,ji->abjp', t, Ainv)       # stored tensor t' with sum_j t'[..j..] A[i,j] = t[..i..]
+            if use_out:
+                t = np.einsum('abjp,po->abjo', t, Binv)
+            q.set_mpo_tensor(k, t)
+        for k in range(n + 1):
+            q.set_cap_tensor(k, pt.get_cap_tensor(k))
+        dyn = oqupy.compute_dynamics(oqupy.System(H), initial_state=rho0, process_tensor=q, progress_type='silent')
+        ref = _exact(H, U, rho0, env0, dt, n)
+        err = max(np.abs(np.array(a) - b).max() for a, b in zip(dyn.states, ref))
+        if err > 1e-8:
+            bad.append({'case': 'transform_in=%s transform_out=%s' % (use_in, use_out), 'max_error': float(err)})
     return {'violates': bool(bad), 'detail': bad}
 
 
